@@ -297,8 +297,24 @@ pub fn expect(f: &str, a: &[Arg]) -> Exp {
 		("equalsIgnoreCase", [S(x), S(y)]) => jbool(x.to_ascii_lowercase() == y.to_ascii_lowercase()),
 		("isEmpty", [S(x)]) => jbool(x.is_empty()),
 		("escapeStringJson", [S(x)]) | ("escapeStringPython", [S(x)]) => {
-			// the result is a string holding the JSON text of x: its own JSON text quotes it once more; compared after parsing
-			Exp::Val(json_quote(&json_quote(x)))
+			// std.jsonnet: quote, backslash and the short escapes, and \uXXXX for code points < 32 and 127..159.
+			// The result is a string holding that text: its own JSON text quotes it once more; compared after parsing
+			let mut t = String::from("\"");
+			for c in x.chars() {
+				match c {
+					'"' => t.push_str("\\\""),
+					'\\' => t.push_str("\\\\"),
+					'\u{8}' => t.push_str("\\b"),
+					'\u{c}' => t.push_str("\\f"),
+					'\n' => t.push_str("\\n"),
+					'\r' => t.push_str("\\r"),
+					'\t' => t.push_str("\\t"),
+					c if (c as u32) < 32 || (127..=159).contains(&(c as u32)) => t.push_str(&format!("\\u{:04x}", c as u32)),
+					c => t.push(c),
+				}
+			}
+			t.push('"');
+			Exp::Val(json_quote(&t))
 		}
 		("escapeStringBash", [S(x)]) => js(&format!("'{}'", x.replace('\'', "'\"'\"'"))),
 		("escapeStringDollars", [S(x)]) => js(&x.replace('$', "$$")),
